@@ -173,6 +173,20 @@ def mirror_fragments():
     )
 
 
+def fan_items():
+    """16 keys that differ in one nibble: a full branch node (all 16 children present)."""
+    return st.builds(
+        lambda p, lo, n: [(p + bytes([i * 16 + lo]), ("sfx", n)) for i in range(16)],
+        st.sampled_from([b"", b"\x12", b"\x00\x00"]),
+        st.integers(0, 15),
+        st.sampled_from([1, 33]),
+    )
+
+
+def fan_fragments():
+    return fan_items().map(lambda items: [("set", ("lit", k), v, 0) for k, v in items])
+
+
 def _flatten(fragments, max_ops):
     out = []
     for f in fragments:
@@ -189,7 +203,7 @@ def histories(tier, max_ops=None, batches=True, aborts=False, near_weight=2, sfx
         max_ops = 30 if tier == "quick" else 80
     op = simple_ops(tier, near_weight, sfx_weight)
     mirror = mirror_fragments()
-    parts = [op] * 12 + [mirror] * mirror_weight
+    parts = [op] * 12 + [mirror] * mirror_weight + [fan_fragments()]
     if batches:
         inner = st.lists(st.one_of([op] * 8 + [mirror] * mirror_weight), max_size=8).map(
             lambda fr: _flatten(fr, 12)
@@ -201,7 +215,7 @@ def histories(tier, max_ops=None, batches=True, aborts=False, near_weight=2, sfx
         batch = st.tuples(st.just("batch"), inner, end)
         parts = parts + [batch] * 2
     return st.lists(st.one_of(parts), min_size=min_ops, max_size=max_ops).map(
-        lambda fr: _flatten(fr, max_ops)
+        lambda fr: _flatten(fr, max_ops + 16)
     )
 
 
@@ -226,3 +240,12 @@ def lookup_keys(model, touched=None, extra=()):
     if touched is not None:
         out.update(model)
     return sorted(out)
+
+
+def item_lists(tier, min_size=0, max_size=10, keys=None):
+    """[(key, valspec)] lists, occasionally containing a 16-way fan (full branch)."""
+    keys = keys if keys is not None else literal_keys(tier)
+    plain = st.lists(st.tuples(keys, valspecs(tier)), min_size=min_size, max_size=max_size)
+    with_fan = st.builds(lambda a, f, b: a + f + b, plain, fan_items(),
+                         st.lists(st.tuples(keys, valspecs(tier)), max_size=3))
+    return st.one_of([plain] * 7 + [with_fan])
